@@ -14,5 +14,5 @@ Extraction "model.ml"
   opt_test infeas_test wf_logicals
   exact_solver_gen exact_solver
   (* add names below, one line per area *)
-  read_num get_value print_num equiv_by_name row_empty encode_bounds decode_bounds
+  read_num_gen get_value print_num equiv_by_name row_empty encode_bounds decode_bounds
   .
